@@ -7,8 +7,8 @@ from .. import common, gen, refinterp, runner, sut
 from .. import model as M
 
 ID = "C09"
-RULE = ("Generated programs with >=1 splitter and conditions; for every input the result is compared across metamorphic "
-        "twins: extra unused keyword arguments, renamed experiment, permuted splitter declaration, permuted argument order, "
+RULE = ("Generated programs with >=1 splitter and conditions (half of them with hostile strings / salts such as {field} templates); for every input the result is compared across metamorphic "
+        "twins: extra unused keyword arguments, renamed experiment (incl. names of the generated code's helpers), permuted splitter declaration, permuted argument order, "
         "changed non-splitter condition values that keep the route (route decided by the reference interpreter) -> identical; "
         "one declared/used field missing -> an exception, never a group. Separate constructed cases: 200 distinct splitter "
         "values on a statement whose two largest shares are >=10% must hit >=2 groups; two different salts over 64 units x "
@@ -25,7 +25,7 @@ SHARDS = {"quick": 1, "thorough": 16}
 
 @st.composite
 def cases(draw):
-    sk = draw(gen.programs(min_splitters=1, max_splitters=3, conditional=True, max_groups=4))
+    sk = draw(gen.programs(min_splitters=1, max_splitters=3, conditional=True, max_groups=4, tricky=draw(st.booleans())))
     prog, classes = sk["prog"], sk["classes"]
     iv = gen.interesting_values(prog, classes)
     inputs, alts = [], []
@@ -40,7 +40,8 @@ def cases(draw):
              for n in draw(st.lists(st.sampled_from(["unused_1", "zz_extra", "debug", "Uid", "salt_", "name", "weights"]),
                                     max_size=3, unique=True)) if n not in classes}
     return {"prog": prog, "classes": classes, "inputs": inputs, "alts": alts, "extra": extra,
-            "perm": draw(st.integers(0, 5)), "newname": draw(st.sampled_from(["renamed", "other_exp", "x9", "Exp"]))}
+            "perm": draw(st.integers(0, 5)), "newname": draw(st.sampled_from(["renamed", "other_exp", "x9", "Exp", "partial", "deterministic_choice", "str", "map",
+                                             "ExperimentConditionalFailedError", "kwargs", "index"]))}
 
 
 def _compile(prog):
